@@ -301,13 +301,29 @@ Definition resume_final_failed (c : case) (p : proj) : bool :=
 Definition restart_step (cf : cfg) (prev : proj) (a : action) (p : proj) : bool :=
   if exp_completed prev && negb (exp_completed p) && is_some (pj_exp p) then restart_enabled cf prev else true.
 
+(* the Succeeded condition of the suggestion is withdrawn (restartSuggestion) only on behalf of an enabled restart.  The
+   experiment controller decides on its cached experiment, which is an earlier state of the stored one: so the restart
+   must be enabled in the stored experiment now or at some earlier step of the history. *)
+Definition sug_succeeded (p : proj) : bool := match pj_sug p with Some s => ps_is s SSucceeded | None => false end.
+
+Fixpoint sug_restart_walk (cf : cfg) (seen : bool) (prev : proj) (steps : list (action * proj)) : bool :=
+  match steps with
+  | [] => true
+  | (a, p) :: rest =>
+      let seen' := seen || restart_enabled cf prev in
+      (if sug_succeeded prev && negb (sug_succeeded p) && is_some (pj_sug p) then seen' else true)
+      && sug_restart_walk cf seen' p rest
+  end.
+
 Definition resume_ok (c : case) : bool :=
   all_steps (restart_step (k_cfg c)) (initial c) (k_steps c) &&
+  sug_restart_walk (k_cfg c) false (initial c) (k_steps c) &&
   rpc_walk None (initial c) (k_steps c)
   && match k_quiet c with Some _ => resume_final c (last_state c) && resume_final_failed c (last_state c) | None => true end.
 
 (* everything but the clause that the known finding F14 violates *)
 Definition resume_ok_modulo_f14 (c : case) : bool :=
   all_steps (restart_step (k_cfg c)) (initial c) (k_steps c) &&
+  sug_restart_walk (k_cfg c) false (initial c) (k_steps c) &&
   rpc_walk None (initial c) (k_steps c)
   && match k_quiet c with Some _ => resume_final c (last_state c) | None => true end.
